@@ -20,7 +20,7 @@ def main(tier):
             "other's intrinsic size)` (R-COPY). Not decided: byte-level post-conditions, symmetry on arbitrary buffers."))
     chk.run("R-EQLOCKSTEP", B.eqlockstep, cx.repo, floor=4)
     chk.run("R-EQTABLE", MB.eqtable, cx.cpp, cx.templates, floor=26)
-    chk.run("R-SIBLING", C.sibling, cx.cpp, floor=80, control=lambda: cx.cpp_control)
+    chk.run("R-SIBLING", C.sibling, cx.cpp, methods=('CopyFrom', 'TryToCopyFrom', 'UncheckedCopyFrom', 'Equals', 'UncheckedEquals'), floor=80, control=lambda: cx.cpp_control)
     chk.run("R-TWIN", C.twin, cx.cpp, floor=40)
     chk.run("R-IFACE", C.iface, cx.cpp, cx.templates, floor=80)
     chk.run("R-COPY", C.copy_rule, cx.cpp, cx.templates, floor=6)
